@@ -49,31 +49,31 @@ theorem C15_bracketVec_spec (g : Nat → K) (n : Nat) (hn : 2 ≤ n) (hg : Stric
 number of dimensions, on strictly increasing grids of any sign, returns the table value at every
 grid node — for **every** choice of the bracketing interval that contains the node (whatever the
 cached `last_index`), and in particular for a fresh table. -/
-theorem C15_node_exact (m : Method) (eps : K) (ds : List (Dim K)) (tbl : List Nat → K)
+theorem C15_node_exact (m : Method) (fix : Bool) (eps : K) (ds : List (Dim K)) (tbl : List Nat → K)
     (is : List Nat) (hg : GridsOK m.minPts ds) (hi : IsNode ds is) :
     (∀ idxs, NodeBracket ds idxs is →
-      evalIdx (m.kernel eps) ds idxs tbl (nodePoint ds is) = tbl is) ∧
-    evalND (m.kernel eps) ds tbl (nodePoint ds is) = tbl is := by
-  have hk : KNode m.minPts (m.kernel eps) := by
+      evalIdx (m.kernel fix eps) ds idxs tbl (nodePoint ds is) = tbl is) ∧
+    evalND (m.kernel fix eps) ds tbl (nodePoint ds is) = tbl is := by
+  have hk : KNode m.minPts (m.kernel fix eps) := by
     cases m
     · exact slinear_node
     · exact lagrange2_node
     · exact lagrange3_node
-    · exact akima_node eps
+    · exact akima_node fix eps
     · exact cubic_node
   have h2 : 2 ≤ m.minPts := by cases m <;> simp [Method.minPts]
   exact ⟨fun idxs hb => evalIdx_node hk ds idxs is tbl hg hb,
     evalIdx_node hk ds _ is tbl hg (bracketAll_node h2 ds is hg hi)⟩
 
 /-- One-dimensional reading: the value at node `i` is `v i`, from either neighbouring interval. -/
-theorem C15_node_exact_1d (m : Method) (eps : K) (n : Nat) (g v : Nat → K) (idx i : Nat)
+theorem C15_node_exact_1d (m : Method) (fix : Bool) (eps : K) (n : Nat) (g v : Nat → K) (idx i : Nat)
     (hn : m.minPts ≤ n) (hg : StrictOn n g) (hi : idx + 1 < n) (hc : i = idx ∨ i = idx + 1) :
-    m.kernel eps n g v idx (g i) = v i := by
+    m.kernel fix eps n g v idx (g i) = v i := by
   cases m
   · exact slinear_node n g v idx i hn hg hi hc
   · exact lagrange2_node n g v idx i hn hg hi hc
   · exact lagrange3_node n g v idx i hn hg hi hc
-  · exact akima_node eps n g v idx i hn hg hi hc
+  · exact akima_node fix eps n g v idx i hn hg hi hc
   · exact cubic_node n g v idx i hn hg hi hc
 
 /-! ## Polynomial reproduction -/
@@ -83,20 +83,20 @@ theorem C15_node_exact_1d (m : Method) (eps : K) (n : Nat) (g v : Nat → K) (id
 `lagrange3`) in any number of dimensions, on strictly increasing grids of any sign, at **every**
 point (inside the table and, with extrapolation on, outside), for every in-range choice of the
 bracket indices and in particular for a fresh table. -/
-theorem C15_reproduce (m : Method) (eps : K) (he : 0 ≤ eps) (ds : List (Dim K)) (p : MPoly K)
+theorem C15_reproduce (m : Method) (fix : Bool) (eps : K) (he : 0 ≤ eps) (ds : List (Dim K)) (p : MPoly K)
     (xs : List K) (hg : GridsOK m.minPts ds) (hp : DegOK m.degree ds.length p)
     (hx : xs.length = ds.length) :
-    (∀ idxs, IdxOK ds idxs → evalIdx (m.kernel eps) ds idxs (polyTbl ds p) xs = polyVal p xs) ∧
-    evalND (m.kernel eps) ds (polyTbl ds p) xs = polyVal p xs := by
+    (∀ idxs, IdxOK ds idxs → evalIdx (m.kernel fix eps) ds idxs (polyTbl ds p) xs = polyVal p xs) ∧
+    evalND (m.kernel fix eps) ds (polyTbl ds p) xs = polyVal p xs := by
   have h2 : 2 ≤ m.minPts := by cases m <;> simp [Method.minPts]
-  exact ⟨fun idxs hi => evalIdx_poly (kernel_rep m eps he) ds idxs p xs hg hi hp hx,
-    evalIdx_poly (kernel_rep m eps he) ds _ p xs hg (bracketAll_idxOK h2 ds xs hg hx) hp hx⟩
+  exact ⟨fun idxs hi => evalIdx_poly (kernel_rep m fix eps he) ds idxs p xs hg hi hp hx,
+    evalIdx_poly (kernel_rep m fix eps he) ds _ p xs hg (bracketAll_idxOK h2 ds xs hg hx) hp hx⟩
 
 /-- Akima on linear data in one dimension (any bracket index, any point). -/
-theorem C15_reproduce_akima_1d (eps : K) (he : 0 ≤ eps) (n : Nat) (g : Nat → K) (a b : K)
+theorem C15_reproduce_akima_1d (fix : Bool) (eps : K) (he : 0 ≤ eps) (n : Nat) (g : Nat → K) (a b : K)
     (idx : Nat) (x : K) (hn : 4 ≤ n) (hg : StrictOn n g) (hi : idx < n) :
-    akimaK eps n g (fun i => a * g i + b) idx x = a * x + b := by
-  have := akima_rep eps he n g idx x (fun k => if k = 0 then b else a) hn hg hi
+    akimaK fix eps n g (fun i => a * g i + b) idx x = a * x + b := by
+  have := akima_rep fix eps he n g idx x (fun k => if k = 0 then b else a) hn hg hi
   have h2 : ∀ y, psum (fun k => if k = 0 then b else a) y (1 + 1) = a * y + b := fun y => by
     rw [show (1 + 1 : Nat) = 2 from rfl, psum_two]; simp
   simp only [h2] at this
@@ -263,11 +263,14 @@ def vals4 : Nat → Rat := fun i => [(1 : Rat), 3, 2, 7].getD i 0
 
 /-- On that 4-point grid at `x = 3/2` the general `akima` table returns `1409/572`, the vectorized
 `1D-akima` table `5/2`, and the single-point `1D-akima` path reads an unassigned `m5`
-(`UnboundLocalError`, `none` in the model). -/
+(`UnboundLocalError`, `none` in the model); with the repaired end conditions (`fix = true`) all three
+return `5/2`. -/
 theorem C15_fixed_akima_counterexample :
-    akimaK (1 / 10 ^ 30 : Rat) 4 grid4 vals4 1 (3 / 2) = 1409 / 572 ∧
-    akima1D true (1 / 10 ^ 30 : Rat) 4 grid4 vals4 1 (3 / 2) = some (5 / 2) ∧
-    akima1D false (1 / 10 ^ 30 : Rat) 4 grid4 vals4 1 (3 / 2) = none := by decide +kernel
+    akimaK false (1 / 10 ^ 30 : Rat) 4 grid4 vals4 1 (3 / 2) = 1409 / 572 ∧
+    akimaK true (1 / 10 ^ 30 : Rat) 4 grid4 vals4 1 (3 / 2) = 5 / 2 ∧
+    akima1D false true (1 / 10 ^ 30 : Rat) 4 grid4 vals4 1 (3 / 2) = some (5 / 2) ∧
+    akima1D false false (1 / 10 ^ 30 : Rat) 4 grid4 vals4 1 (3 / 2) = none ∧
+    akima1D true false (1 / 10 ^ 30 : Rat) 4 grid4 vals4 1 (3 / 2) = some (5 / 2) := by decide +kernel
 
 /-! ## Non-vacuity: the hypotheses are met by concrete non-trivial instances -/
 
@@ -291,7 +294,7 @@ example :
     bracket gridNeg 4 2 (-6) = (0, Flag.below) ∧
     lagrange2K 4 gridNeg (fun i => gridNeg i ^ 2) (bracket0 gridNeg 4 (-3)) (-3) = 9 ∧
     lagrange3K 4 gridNeg (fun i => gridNeg i ^ 3) (bracket0 gridNeg 4 (-3)) (-3) = -27 ∧
-    akimaK (1 / 10 ^ 30 : Rat) 4 gridNeg (fun i => 2 * gridNeg i + 1) 1 (-3) = -5 ∧
+    akimaK false (1 / 10 ^ 30 : Rat) 4 gridNeg (fun i => 2 * gridNeg i + 1) 1 (-3) = -5 ∧
     cubicK 4 gridNeg (fun i => 2 * gridNeg i + 1) 1 (-3) = -5 ∧
     cubicK 4 gridNeg vals4 1 (-4) = 3 ∧
     evalND slinearK [(4, gridNeg), (4, grid4)] (fun is => gridNeg (is.getD 0 0) * grid4 (is.getD 1 0))
